@@ -35,14 +35,18 @@ MANIFEST = {
             "conjGrad_never_worse_after_any_history; memo_on_identity_violates (a memo keyed by the identity of the k-space "
             "argument breaks it). The theorems are about the same Lean definitions the driver executes over "
             "exact Gaussian rationals; those are tied to the code by (a) plans translated from the Python AST of forward / "
-            "_A_star_op / _A_star_A_op / B_op / cg / _PRP / _DY / _BAN, proved equal to the model plans and proved to evaluate to "
-            "the model definitions for every operations record, the control skeleton of cg incl. the break test, the number of "
-            "exits (1) and loops (1); (b) translated structural tables with decided predicates: dc_state_writes_ok (no write to "
+            "_A_star_op / _A_star_A_op / B_op / cg (private helpers and module-level private functions inlined with their argument "
+            "bindings, hoisted zero / mask locals followed, the dispatch on bk_update_type resolved per update type whether written "
+            "as if/elif chain or early returns, index lists recognised by evaluating them for ranks 3-6), proved to evaluate to "
+            "the model definitions for every operations record (semantic bridge: insensitive to statement order, local names, "
+            "hoisting, helper extraction), the control skeleton of cg as data (break test on the new squared residual norm, only x "
+            "updated before it, one exit, one loop); (b) translated structural tables with decided predicates: dc_state_writes_ok (no write to "
             "self / class / module state, no memoising decorator in the 87 functions reachable from the entry points of 25 "
             "data-consistency classes + the tensor helpers), dc_block_shape_ok (single exit, no in-place operation on an argument), "
-            "dc_control_ok (every branch / loop of the two anchored blocks is the modelled one: no branch on self.training, a shape, "
-            "a coil count, no loop over coils or chunks; the loops and mode- / shape-dependent branches of the other classes are the "
-            "recorded ones), conjgradnet_cg_calls_ok / conjgradnet_ctor_args_eq / site_conjgradnet_init_sem (the caller of ConjGrad "
+            "dc_control_ok (every branch / loop of the two anchored blocks is among the modelled kinds — optional-argument default, the "
+            "cg loop with its break, the update-type dispatch: no branch on self.training, a shape, a coil count, no loop over coils "
+            "or chunks; the loops and mode- / shape-dependent branches of the other classes are among the recorded ones; removing a "
+            "branch or extracting a helper does not alarm), conjgradnet_cg_calls_ok / conjgradnet_ctor_args_eq / site_conjgradnet_init_sem (the caller of ConjGrad "
             "outside the anchored file); (c) exact differential correspondence against the real blocks "
             "with dense dyadic unitary / un-normalised / arbitrary operator matrices injected as forward/backward operators, in "
             "train and eval mode, 1-33 coils, and along call histories on ONE persistent instance (same tensor objects re-used with "
